@@ -106,6 +106,13 @@ var initState = [][]string{
 	{"geoadd", "vns:t:g1", "13.361389", "38.115556", "Palermo", "15.087269", "37.502669", "Catania"},
 }
 
+var maintenance = [][]string{
+	{"lclear", "vns:t:l1"}, {"lclear", "vns:t:l2"}, {"hclear", "vns:t:h1"}, {"hclear", "vns:t:h2"}, {"sclear", "vns:t:s1"},
+	{"sclear", "vns:t:s2"}, {"zclear", "vns:t:z1"}, {"zclear", "vns:t:z2"}, {"zclear", "vns:t:g1"}, {"del", "vns:t:k1", "vns:t:j1", "vns:t:j2", "vns:t:p1"},
+	{"json.del", "vns:t:j1"}, {"json.del", "vns:t:j2"}, {"bitclear", "vns:t:b1"}, {"bitclear", "vns:t:b2"},
+	{"lclear", "vns:t:lbig"}, {"hclear", "vns:t:hbig"}, {"sclear", "vns:t:sbig"}, {"zclear", "vns:t:zbig"},
+}
+
 func genericTemplates(name string) [][]string {
 	var out [][]string
 	pool := []string{"a", "1", "b", "2", "c", "3"}
